@@ -52,7 +52,7 @@ func runC16(c *Ctx) {
 	}
 	rs := cl + "runSignalReply"
 	c.Has(r1, rs, "waiter looked up by the given id", `^val:%c\.awaitingReply\[%requestID\],ok$`, 1)
-	c.Has(r1, rs, "message handed to that waiter", `^select\{send:%c\.awaitingReply\[%requestID\],ok#0<-%msg;recv:call:client\.\(\*Client\)\.Done\(%c\)\}$`, 1)
+	c.Has(r1, rs, "message handed to that waiter", `^select\{send:%c\.awaitingReply\[%requestID\],ok#0\.msgs<-%msg;recv:`, 1)
 	c.R.Floor(r1, 30)
 
 	const r2 = "C16.R2 register waiter, send request with the same id, wait on it"
@@ -94,14 +94,14 @@ func runC16(c *Ctx) {
 	}
 	ab := cl + "abandonCall"
 	c.Reach(r3, ab, "abandonCall closes and waits when a progress goroutine exists", ReachSpec{Stop: `^val:<-%progDone$`, Cut: []ir.Clause{clause("no progress handler", T(`^\(%progChan == nil\)$`))}, Target: "EXIT", Want: false})
-	c.Has(r3, ab, "abandonCall releases the waiter", `^call:builtin:delete\(%c\.awaitingReply, %id\)$`, 1)
+	c.Has(r3, ab, "abandonCall releases the waiter", waiterForgotten, 1)
 	wc := cl + "waitForReplyWithCancel"
 	c.Guard(r3, wc, "progressive result forwarded", `^send:%progChan<-`, 1, clause("a progress channel exists", F(`^\(%progChan == nil\)$`)),
 		clause("result carries the progress flag", T(`^.*\.Details\["progress"\]\.\(bool\),ok#0$`)))
 	c.R.Floor(r3, 12)
 
 	const r4 = "C16.R4 cancellation sends CANCEL with the configured mode and returns the context's error"
-	ctxDone := clause("context done", T(`^\(select\{recv:%c\.awaitingReply\[%id\],ok#0;recv:call:invoke:context\.Context\.Done\[%ctx\]\(\);recv:call:client\.\(\*Client\)\.Done\(%c\)\}#0 == 1\)$`))
+	ctxDone := clause("context done", T(`^\(select\{recv:%c\.awaitingReply\[%id\],ok#0\.msgs;recv:call:invoke:context\.Context\.Done\[%ctx\]\(\);recv:call:client\.\(\*Client\)\.Done\(%c\)\}#0 == 1\)$`))
 	c.Guard(r4, wc, "CANCEL sent", `^send:call:invoke:wamp\.Peer\.Send\[%c\.sess\.Peer\]\(\)<-new\(wamp\.Cancel\)$`, 1, ctxDone)
 	c.Fields(r4, wc, "CANCEL literal", "wamp.Cancel", nil, map[string]string{"Request": `^%id$`, "Options": `^call:wamp\.SetOption\(nil, "mode", %c\.cancelMode\)$`}, 1)
 	c.Reach(r4, wc, "a done context always sends CANCEL", ReachSpec{FromEdge: &ctxDone, Stop: `^send:call:invoke:wamp\.Peer\.Send\[%c\.sess\.Peer\]\(\)<-new\(wamp\.Cancel\)$`, Target: "EXIT", Want: false})
@@ -142,13 +142,31 @@ func pubNoAck(api string) []ir.Clause {
 	return []ir.Clause{clause("publish without acknowledge", F(`^%options\["acknowledge"\]\.\(bool\),ok#0$`), F(`^phi\(.*acknowledge.*\)$`), T(`^\(%options == nil\)$`))}
 }
 
-// ruleWaiterRemoved: waiting removes the waiter on every exit.
+// waiterForgotten: the waiter registered under the id is removed (and the receive loop released), either directly or
+// through forgetReply, whose body is checked by ruleWaiterRemoved.
+const waiterForgotten = `^call:client\.\(\*Client\)\.forgetReply\(%c, %id\)$`
+
+// ruleWaiterRemoved: waiting removes the waiter on every exit, and removing it releases a receive loop that is
+// handing over a reply to it.
 func ruleWaiterRemoved(c *Ctx, r2 string) {
 	for _, w := range []string{"waitForReply", "waitForReplyWithCancel"} {
 		f := cl + w
-		c.Has(r2, f, "waits on the waiter registered for the id", `^select\{recv:%c\.awaitingReply\[%id\],ok#0;`, 1)
-		closed := clause("waiter channel closed", F(`^select\{recv:%c\.awaitingReply\[%id\],ok#0;.*\}#1$`))
+		c.Has(r2, f, "waits on the waiter registered for the id", `^select\{recv:%c\.awaitingReply\[%id\],ok#0\.msgs;`, 1)
+		closed := clause("waiter channel closed", F(`^select\{recv:%c\.awaitingReply\[%id\],ok#0\.msgs;.*\}#1$`))
 		c.Reach(r2, f, "waiter removed on every exit (except when its channel was closed)", ReachSpec{
-			From: `^select\{recv:%c\.awaitingReply\[%id\],ok#0;recv:call:(time|invoke:context)`, Stop: `^call:builtin:delete\(%c\.awaitingReply, %id\)$`, Cut: []ir.Clause{closed}, Target: "EXIT", Want: false})
+			From: `^select\{recv:%c\.awaitingReply\[%id\],ok#0\.msgs;recv:call:(time|invoke:context)`, Stop: waiterForgotten, Cut: []ir.Clause{closed}, Target: "EXIT", Want: false})
+	}
+	fr := cl + "forgetReply"
+	found := clause("an entry exists under the id", T(`^%c\.awaitingReply\[%id\],ok#1$`))
+	c.Has(r2, fr, "forgetReply deletes the entry of the id", `^call:builtin:delete\(%c\.awaitingReply, %id\)$`, 1)
+	c.Guard(r2, fr, "gone closed once: only together with the removal of the entry", `^call:builtin:close\(%c\.awaitingReply\[%id\],ok#0\.gone\)$`, 1, found)
+	c.Before(r2, fr, "entry removed before gone is closed, in one lock region", `^call:builtin:delete\(%c\.awaitingReply, %id\)$`, `^call:builtin:close\(%c\.awaitingReply\[%id\],ok#0\.gone\)$`)
+	c.Reach(r2, fr, "no unlock between lookup, delete and close", ReachSpec{From: `^call:wamp\.\(\*Session\)\.Lock\(%c\.sess\)$`, Stop: `^call:builtin:close\(`, Cut: []ir.Clause{clause("no entry", F(`^%c\.awaitingReply\[%id\],ok#1$`))}, Target: `^call:wamp\.\(\*Session\)\.Unlock\(`, Want: false})
+	for _, fn := range c.P.FuncsIn("client") {
+		for _, in := range ir.Instrs(fn) {
+			if d := ir.InstrDesc(in); strings.HasPrefix(d, "call:builtin:close(") && strings.HasSuffix(d, ".gone)") {
+				c.R.Check(ir.ShortName(fn) == fr, r2, ir.ShortName(fn), "a waiter's gone channel is closed only by forgetReply", c.pos(in), "a second close site can close the channel twice (panic) or release the receive loop for a waiter that is still waiting")
+			}
+		}
 	}
 }
